@@ -582,6 +582,18 @@ where
         settle(&mut self.swarm, &world, &mut |e, w| render_event(e, w));
     }
 
+    /// exactly one `Swarm::poll` call (events, if any, are logged)
+    pub fn poll_once(&mut self) {
+        let flag = Arc::new(Flag(AtomicBool::new(false)));
+        let waker = Waker::from(flag);
+        let mut cx = Context::from_waker(&waker);
+        if let Poll::Ready(Some(ev)) = self.swarm.poll_next_unpin(&mut cx) {
+            let mut w = self.world.lock().unwrap();
+            let s = render_event(ev, &mut w);
+            w.push(s);
+        }
+    }
+
     pub fn take_log(&mut self) -> Vec<String> {
         std::mem::take(&mut self.world.lock().unwrap().log)
     }
